@@ -216,6 +216,9 @@ def run(cx, chk):
     c04.check_cursor(cx, chk, cx.runtime, "runtime")
     if "C04.cursor" in chk.rules:
         chk.rules["C09.cursor"] = chk.rules.pop("C04.cursor")
+    # byte ranges are ranges of the string the caller passed: the friendly entry points hand it on unchanged (shared with C01.entry)
+    from . import c05
+    c05.check_entry_wrappers(cx, chk, "C09.entry")
     # "the start is after whitespace the caller skipped": every reference made by a skipping rule is preceded by the skip, in the
     # caller (shared with C08.inst: the whitespace skeleton of every lifted rule equals its grammar's)
     from . import c08
